@@ -350,8 +350,7 @@ def r_force_apply(ctx):
             else:
                 ctx.violation("R-PB-TABLE", where, f"kind={kind}: cardinality over the applied flags",
                               f"expected {show(want)[:240]}, emitted {[show(g)[:240] for g in got]}" + (f" - {sem_detail}" if sem_detail else ""), location)
-            raises = [ev for ev in run.events_of("raise") if ev.loops and norm(ev.loops[0][3]) == T("list_of_optional_constraints")
-                      and "optional" in show(And(*ev.guards))]
+            raises = [ev for ev in run.events_of("raise") if rejects_an_element(ev, T("list_of_optional_constraints"), "optional")]
             if raises and not any(e.site.lineno < raises[0].site.lineno and e.site.func == where for e in own):
                 ctx.ok("R-RAISE-OPTIONAL", f"{where} kind={kind} rejects a mandatory constraint in the list")
             else:
